@@ -34,6 +34,7 @@ property names first — pipeline tasks, which wait for the tasks of their wait 
 their lock map (`Goat/Model/MutexTasks.lean`, tied to `Runner.runGo` by `Goat/Tie/C15.lean`).
 -/
 import Goat.Proofs.MutexMain
+import Goat.Proofs.MutexParties
 import Goat.Proofs.MutexTasksMain
 
 namespace Goat.C15
@@ -90,6 +91,40 @@ example : ∀ mi, [[((0 : Name), false), (1, true)], [(0, false)], [(3, true), (
   | 1, _, hmj => simp at hmj; subst hmj; intro m w1 w2 h1 h2; simp at h1 h2; rcases h1 with ⟨rfl, rfl⟩ | ⟨rfl, rfl⟩ <;> simp_all
   | 2, _, hmj => simp at hmj; subst hmj; intro m w1 w2 h1 h2; simp at h1 h2; rcases h1 with ⟨rfl, rfl⟩ | ⟨rfl, rfl⟩ <;> simp_all
   | (k + 3), _, hmj => simp at hmj
+
+/-- Three and more parties.  A holder `a`, ANY number of further holders `bs` with ANY maps — in the check's
+`parties` cases: requests that conflict with `a` and are parked inside `Lock`, possibly holding part of their
+maps — and a late-comer `c` (the last index, `bs.length + 1`) whose map is disjoint from, or only read-overlaps
+with, the map of `a` and of every member of `bs`: in EVERY reachable state — in particular while `a` is inside
+and every member of `bs` is blocked — `c` can make its next move until it has finished.  Nothing that the
+others hold or wait for serialises `c` behind them. -/
+theorem third_party_not_serialised (v : Variant) (a : LockMap) (bs : List LockMap) (c : LockMap)
+    (hmaps : ∀ m ∈ a :: bs ++ [c], NodupNames m)
+    (hca : MapsCompatible c a) (hcb : ∀ b ∈ bs, MapsCompatible c b) (sched : List Nat)
+    (hact : ActiveAt ((sys v (a :: bs ++ [c])).run sched) (bs.length + 1)) :
+    (step v ((sys v (a :: bs ++ [c])).run sched) (bs.length + 1)).isSome = true :=
+  parties_never_blocked_main v a bs c hmaps hca hcb (run_reachable _ sched) hact
+
+-- non-vacuity: A = {1:W} is inside; B = {0:W, 1:W} holds 0 and is blocked on 1 (no step); C = {2:W, 3:R}
+-- (compatible with both) has not started and is active — and scheduled alone (5 moves) it is inside its
+-- critical section while A is still inside and B still cannot move
+example : InsideAt ((sys .pref [[(1, true)], [(0, true), (1, true)], [(2, true), (3, false)]]).run [0, 0, 0, 1, 1]) 0 ∧
+    step .pref ((sys .pref [[(1, true)], [(0, true), (1, true)], [(2, true), (3, false)]]).run [0, 0, 0, 1, 1]) 1 = none ∧
+    HoldsAt ((sys .pref [[(1, true)], [(0, true), (1, true)], [(2, true), (3, false)]]).run [0, 0, 0, 1, 1]) 1 (0, true) ∧
+    ActiveAt ((sys .pref [[(1, true)], [(0, true), (1, true)], [(2, true), (3, false)]]).run [0, 0, 0, 1, 1]) 2 :=
+  ⟨⟨_, rfl, rfl⟩, rfl, ⟨_, rfl, by decide⟩, ⟨_, rfl, by decide⟩⟩
+
+example : InsideAt ((sys .pref [[(1, true)], [(0, true), (1, true)], [(2, true), (3, false)]]).run [0, 0, 0, 1, 1, 2, 2, 2, 2]) 0 ∧
+    step .pref ((sys .pref [[(1, true)], [(0, true), (1, true)], [(2, true), (3, false)]]).run [0, 0, 0, 1, 1, 2, 2, 2, 2]) 1 = none ∧
+    InsideAt ((sys .pref [[(1, true)], [(0, true), (1, true)], [(2, true), (3, false)]]).run [0, 0, 0, 1, 1, 2, 2, 2, 2]) 2 :=
+  ⟨⟨_, rfl, rfl⟩, rfl, ⟨_, rfl, rfl⟩⟩
+
+example : MapsCompatible [((2 : Name), true), (3, false)] [(1, true)] ∧
+    ∀ b ∈ [[((0 : Name), true), (1, true)]], MapsCompatible [((2 : Name), true), (3, false)] b := by
+  refine ⟨?_, ?_⟩
+  · intro m w1 w2 h1 h2; simp at h1 h2; rcases h1 with ⟨rfl, rfl⟩ | ⟨rfl, rfl⟩ <;> simp_all
+  · intro b hb; simp at hb; subst hb
+    intro m w1 w2 h1 h2; simp at h1 h2; rcases h1 with ⟨rfl, rfl⟩ | ⟨rfl, rfl⟩ <;> rcases h2 with ⟨h, _⟩ | ⟨h, _⟩ <;> simp_all
 
 /-! ### 3. Deadlock freedom and completion -/
 
